@@ -136,6 +136,14 @@ func (p *c02) Run(w *lib.Worker, idx int, r *lib.Rand) lib.Case {
 			accepted = fmt.Sprintf("SpecValidator(continue-on-errors=%v)", cont)
 		}
 	}
+	// the option which tells the validators not to record schemata must not change what is accepted
+	if o := sut.ValidateDoc(reload(text), sut.SpecOpts{Continue: idx%2 == 0, Strict: true, SkipSchemata: true}); o.Panic == "" {
+		outcomes = append(outcomes, o)
+		c.Evals++
+		if o.Valid && accepted == "" {
+			accepted = fmt.Sprintf("SpecValidator(continue-on-errors=%v, SkipSchemataResult)", idx%2 == 0)
+		}
+	}
 	so := sut.Guard(func() sut.Outcome { return sut.FromError(validate.Spec(reload(text), strfmt.Default)) })
 	c.Evals++
 	if so.Panic == "" && so.Valid && accepted == "" {
